@@ -138,8 +138,12 @@ func RunSeq(p Params) *Result {
 	}
 	s := NewSeq(w, cfg, prof, pools, kept)
 	s.NoReopen = p.Extra["noreopen"] == 1
+	s.Prop = p.Prop
 	cfg0 := *cfg
 	s.Run()
+	if s.V == nil && s.Foreign != nil {
+		s.V = s.Foreign // nothing the property owns fired afterwards: the run reports its foreign divergence
+	}
 	res := &Result{Params: p, V: s.V, Digest: w.Digest(), Class: cfg0.Class(), Steps: w.Steps,
 		SimMs: int64(w.Now() / 1e6), NOps: len(kept), Stats: s.Stats, Config: cfg0.String(), Decisions: len(w.Decisions)}
 	if w.OverSteps && s.V == nil {
